@@ -6,7 +6,7 @@ import (
 )
 
 func st(sqls ...string) []*stmt { return lexAll(sqls) }
-func V(s string) Val           { return Val{s, s} }
+func V(s string) Val            { return Val{s, s} }
 
 func TestCompareHolds(t *testing.T) {
 	va := defaultVariants[0]
@@ -124,12 +124,21 @@ func TestQuoting(t *testing.T) {
 	if q, _ := identForm(reLogQLLabel, "", false).F("--"); !q.Weak {
 		t.Errorf("LogQL label names may not contain dashes: %+v", q)
 	}
-	n := 0
-	for _, ph := range phases(false) {
-		n += len(ph.Strings)
+	// phases are disjoint; quick has the atoms and the pairs with a critical atom, thorough all pairs and core triples
+	count := func(thorough bool) int {
+		seen := map[string]bool{}
+		for _, ph := range phases(thorough) {
+			for _, s := range ph.Strings {
+				if seen[s] {
+					t.Errorf("string %q in two phases", s)
+				}
+				seen[s] = true
+			}
+		}
+		return len(seen)
 	}
-	if n < 900 {
-		t.Errorf("hostile set too small: %d", n)
+	if q, th := count(false), count(true); q < 500 || th < 10000 {
+		t.Errorf("hostile sets too small: quick %d thorough %d", q, th)
 	}
 }
 
